@@ -145,9 +145,80 @@ def grad_sites(repo: Repo, fn, mi):
                 diff.append(None)
             else:
                 diff.append(n.args[k])
-        out.append({"app": n, "transform": tcall, "kind": kind, "argnums": nums, "tuple": isinstance(an, (tuple, list)), "has_aux": has_aux, "loss": loss, "diff": diff,
-                    "value_and": kind.endswith("value_and_grad")})
+        site = {"app": n, "transform": tcall, "kind": kind, "argnums": nums, "tuple": isinstance(an, (tuple, list)), "has_aux": has_aux, "loss": loss, "diff": diff,
+                "value_and": kind.endswith("value_and_grad")}
+        out.append(_through_wrapper(repo, fn, mi, site))
     return out
+
+
+def _through_wrapper(repo, fn, mi, site):
+    """`def w(p): return L(a, b, p)` / `lambda p: L(a, b, p)` differentiated w.r.t. p is L differentiated w.r.t. the position p is
+    passed at: the site is rewritten in terms of L (loss, argnums, application arguments in L's positional order)."""
+    from ..expand import clone
+    loss = site["loss"]
+    W = None
+    if isinstance(loss, ast.Lambda):
+        W = (positional_params_l(loss), loss.body)
+    elif isinstance(loss, ast.Name):
+        cands = [x for x in ast.walk(fn) if isinstance(x, ast.FunctionDef) and x is not fn and x.name == loss.id]
+        lams = [x.value for x in ast.walk(fn) if isinstance(x, ast.Assign) and len(x.targets) == 1 and isinstance(x.targets[0], ast.Name) and x.targets[0].id == loss.id and isinstance(x.value, ast.Lambda)]
+        if len(cands) == 1 and not lams:
+            body = [b for b in cands[0].body if not (isinstance(b, ast.Expr) and isinstance(b.value, ast.Constant))]
+            if len(body) == 1 and isinstance(body[0], ast.Return) and body[0].value is not None:
+                W = ([a.arg for a in cands[0].args.posonlyargs + cands[0].args.args], body[0].value)
+        elif len(lams) == 1 and not cands:
+            W = (positional_params_l(lams[0]), lams[0].body)
+    if W is None:
+        return site
+    wp, ret = W
+    if not (isinstance(ret, ast.Call) and isinstance(ret.func, (ast.Name, ast.Attribute))):
+        return site
+    lq = repo.resolve_expr(mi, ret.func)
+    if not (lq and lq.startswith("rl_blox.") and repo.has(lq)):
+        return site
+    try:
+        L = repo.func(lq)
+    except Exception:
+        return site
+    Lp = positional_params(L)
+    if any(isinstance(a, ast.Starred) for a in ret.args) or any(k.arg is None for k in ret.keywords):
+        return site
+    bound = {}
+    for pn, a in zip(Lp, ret.args):
+        bound[pn] = a
+    for k in ret.keywords:
+        bound[k.arg] = k.value
+    app = site["app"]
+    if any(isinstance(a, ast.Starred) for a in app.args):
+        return site
+    wmap = {wp[i]: a for i, a in enumerate(app.args) if i < len(wp)}
+    for k in app.keywords:
+        if k.arg:
+            wmap[k.arg] = k.value
+    new_args = []
+    for pn in Lp:
+        if pn not in bound:
+            break
+        e = bound[pn]
+        new_args.append(wmap[e.id] if isinstance(e, ast.Name) and e.id in wmap else e)
+    nums = []
+    for k in site["argnums"]:
+        if k >= len(wp):
+            return site
+        pos = [j for j, pn in enumerate(Lp) if pn in bound and isinstance(bound[pn], ast.Name) and bound[pn].id == wp[k]]
+        if len(pos) != 1:
+            return site
+        nums.append(pos[0])
+    syn = ast.copy_location(ast.Call(func=app.func, args=new_args, keywords=[]), app)
+    syn._parent = getattr(app, "_parent", None)
+    syn._original = app
+    s2 = dict(site)
+    s2.update({"app": syn, "loss": ret.func, "argnums": nums, "diff": [new_args[j] if j < len(new_args) else None for j in nums], "wrapper": loss})
+    return s2
+
+
+def positional_params_l(lam: ast.Lambda):
+    return [a.arg for a in lam.args.posonlyargs + lam.args.args]
 
 
 def _stmt_of(node):
